@@ -472,6 +472,13 @@ func (c *FnCtx) sevCall(sc *specCtx, e *SExpr) *Term {
 			}
 			c.unboxFn(x.Sort)
 			return mk("box_"+mangleSort(x.Sort), SInt, x)
+		case "bytes":
+			// bytes(s): the conversion []byte(s) (same uninterpreted function as in code)
+			x := c.sev(sc, args[0])
+			bs := c.ts.sliceSort(SInt)
+			fn := "conv_" + mangleSort(SStr) + "_to_" + mangleSort(bs)
+			c.smt.fun(fn, []string{SStr}, bs)
+			return mk(fn, bs, x)
 		case "atentry":
 			// atentry(e): the value of e when the loop (or walk) whose invariant this is was entered
 			if c.curEntry == nil {
